@@ -339,3 +339,8 @@ class RepList:
 class ASuper:
     def __init__(self, ci, obj):
         self.ci, self.obj = ci, obj
+
+
+class Token(Opaque):
+    """An opaque value created by a rule that is known not to be None (a parameter the caller supplies)."""
+    nonnull = True
